@@ -30,6 +30,14 @@ def dimIndexValues (ord : List Nat) (sg : Option Nat) (p : Nat) : List Nat :=
 def frameDims (ord : List Nat) (keys : List (Option Nat × Nat)) : List (List Nat) :=
   keys.map fun k => dimIndexValues ord k.1 k.2
 
+/-- ... for a source image without frame of reference (one plane only; no position to index): the segment number alone,
+    and for LABELMAP the constant 1 of the "Frame Label" dimension -/
+def dimIndexValuesNoFoR : Option Nat → List Nat
+  | some s => [s]
+  | none => [1]
+
+def frameDimsNoFoR (keys : List (Option Nat × Nat)) : List (List Nat) := keys.map fun k => dimIndexValuesNoFoR k.1
+
 /-- lexicographic "comes before" on index vectors (the order DICOM asks frames to be stored in) -/
 def lexLt : List Nat → List Nat → Bool
   | a :: as, b :: bs => decide (a < b) || (a == b && lexLt as bs)
@@ -124,6 +132,20 @@ def buildTiled (codec : Option Codec) (R C tr tc : Nat) (t : SegType) (segs : Li
   if m.numPlanes ≠ 1 then .error .value
   else if m.planeSizes.any (· != R * C) then .error .value
   else build codec tr tc t segs mfv omt (List.range (tileMask R C tr tc m).numPlanes) (tileMask R C tr tc m)
+
+/-- number of pixels of a plane -/
+def Plane.size : Plane → Nat
+  | .intLabel px => px.length
+  | .intStack px => px.length
+  | .fltLabel px => px.length
+  | .fltStack px => px.length
+
+/-- the `R × C` matrix put together for segment number `j` from what was read tile by tile (`out` indexed
+    [tile][segment][pixel of the tile]): pixel (r, c) from the frame of the tile that covers it -- the gathering step of
+    `get_total_pixel_matrix` for the whole matrix (`none`: no such tile / segment / pixel) -/
+def assembleTPM (out : List (List (List Nat))) (R C tr tc j : Nat) : List (Option Nat) :=
+  (List.range R).flatMap fun r => (List.range C).map fun c =>
+    ((out[(r / tr) * tilesAlong C tc + c / tc]?.bind (·[j]?)).bind (·[(r % tr) * tc + c % tc]?))
 
 /-- the same constructor path in the order of the source: `_check_and_cast_pixel_array` on the whole matrix, then the loop
     cuts the *cast* array with `get_tile_array` (equal to `buildTiled`: `buildTiled_is_source_order`) -/
